@@ -109,6 +109,10 @@ static void write_stats(const std::string &path, const Stats &st, const std::str
 }
 
 int main(int argc, char **argv) {
+  {
+    const char *j = getenv("VF_JOURNAL");
+    if (j) journal_fd = open(j, O_CREAT | O_WRONLY | O_TRUNC, 0644);
+  }
   if (argc < 2) {
     fprintf(stderr, "usage: vf check|replay|gen|list ...\n");
     return 2;
@@ -134,6 +138,30 @@ int main(int argc, char **argv) {
   if (mode == "rule") {
     for (auto &p : registry())
       if (argc > 2 && std::string(argv[2]) == p.id) printf("%s\n", p.rule);
+    return 0;
+  }
+
+  if (mode == "exec") {
+    // execute every case of a file and print "<index> <ok> <digest>" (configuration-independence comparisons)
+    if (pos.empty()) return 2;
+    std::ifstream in(pos[0]);
+    std::string line;
+    long idx = 0;
+    while (std::getline(in, line)) {
+      if (line.empty() || line[0] == '#') continue;
+      Case c = Case::parse(line);
+      const Prop *p = find_prop(c.s("prop", ""));
+      if (!p) continue;
+      journal(c);
+      Verdict v = safe_exec(p, c);
+      std::string lab;
+      for (auto &l : v.labels)
+        if (l.find("recurs") != std::string::npos || l.find("strassen") != std::string::npos || l.find("blocksize") != std::string::npos ||
+            l.find("strip") != std::string::npos || l.find("giantstep") != std::string::npos)
+          lab += l + ",";
+      printf("%ld %d %016llx %s :: %s\n", idx++, v.ok ? 1 : 0, (unsigned long long)v.outhash, lab.empty() ? "-" : lab.c_str(), v.ok ? "" : v.msg.c_str());
+      fflush(stdout);
+    }
     return 0;
   }
 
